@@ -1366,6 +1366,9 @@ pub struct SiteGroup {
     pub faults: Vec<StoredFault>,
     /// amplified input: run a short list of calls instead of the whole API sweep
     pub light: bool,
+    /// amplified input run at a quarter, a half and the full number of generated items, to see
+    /// how the CPU time grows (`c06::exec_spec`)
+    pub scaling: bool,
 }
 
 fn find(h: &[u8], n: &[u8]) -> Option<usize> {
@@ -1475,7 +1478,9 @@ pub fn amplify_sites(fx: &Fixture, parts: &mut Parts, n: u32) -> Vec<Vec<StoredF
         }
         Format::Ods => {
             if let Some(data) = parts.part("content.xml") {
-                if let Some(m) = find(&data, b"<text:p>") {
+                // the first paragraph of a *string* cell (the reader builds the text of those only)
+                let cell = find(&data, b"office:value-type=\"string\"").unwrap_or(0);
+                if let Some(m) = find(&data[cell..], b"<text:p>").map(|m| m + cell) {
                     let at = m + b"<text:p>".len();
                     out.push(vec![zp("content.xml", Edit::Repeat { off: at, pattern: b"&amp;".to_vec(), count: n, start: 0, step: 0, le: vec![] }, format!("xml:entity-flood content.xml first <text:p> starts with {} entity references", n))]);
                     out.push(vec![zp("content.xml", Edit::Repeat { off: at, pattern: b"<text:span>a</text:span><text:s/>".to_vec(), count: n, start: 0, step: 0, le: vec![] }, format!("xml:child-flood content.xml first <text:p> given {} spans and spaces", n))]);
@@ -1580,7 +1585,7 @@ pub fn sites(fx: &Fixture, parts: &mut Parts, tier: Tier) -> Vec<SiteGroup> {
     let mut all: Vec<SiteGroup> = Vec::new();
     let mut push = |inner: Option<String>, fs: Vec<StoredFault>, all: &mut Vec<SiteGroup>| {
         for g in group(fs) {
-            all.push(SiteGroup { inner: inner.clone(), faults: g, light: false });
+            all.push(SiteGroup { inner: inner.clone(), faults: g, light: false, scaling: false });
         }
     };
     // ---- layer 0 ----
@@ -1697,19 +1702,19 @@ pub fn sites(fx: &Fixture, parts: &mut Parts, tier: Tier) -> Vec<SiteGroup> {
     if tier == Tier::Thorough || fx.name.starts_with("any_sheets.") || fx.name.starts_with("issues.") || fx.name.starts_with("date.") || fx.name.starts_with("vba.") {
         if tier == Tier::Thorough || fx.name.starts_with("any_sheets.") {
             for g in amplify_sites(fx, parts, amp_n) {
-                all.push(SiteGroup { inner: None, faults: g, light: true });
+                all.push(SiteGroup { inner: None, faults: g, light: true, scaling: false });
             }
         }
         let thorough = tier == Tier::Thorough;
         if let Some(l) = parts.cfb.clone() {
             for g in cfb_bombs(img, &l, if thorough { 4000 } else { 600 }) {
-                all.push(SiteGroup { inner: None, faults: g, light: true });
+                all.push(SiteGroup { inner: None, faults: g, light: true, scaling: false });
             }
         }
         if let Some(data) = parts.part("xl/vbaProject.bin") {
             if let Some(l) = cfbfmt::parse(&data) {
                 for g in cfb_bombs(&data, &l, if thorough { 4000 } else { 600 }) {
-                    all.push(SiteGroup { inner: Some("xl/vbaProject.bin".into()), faults: g, light: true });
+                    all.push(SiteGroup { inner: Some("xl/vbaProject.bin".into()), faults: g, light: true, scaling: false });
                 }
             }
         }
@@ -1721,7 +1726,7 @@ pub fn sites(fx: &Fixture, parts: &mut Parts, tier: Tier) -> Vec<SiteGroup> {
                         let nn = n.clone();
                         let mk = move |e: Edit, why: String| StoredFault { layer: Layer::ZipPart { part: nn.clone(), pack: Pack::Deflated }, edit: Some(e), why };
                         for g in record_bombs(n, &data, false, thorough, &mk) {
-                            all.push(SiteGroup { inner: None, faults: g, light: true });
+                            all.push(SiteGroup { inner: None, faults: g, light: true, scaling: false });
                         }
                     }
                 }
@@ -1734,7 +1739,7 @@ pub fn sites(fx: &Fixture, parts: &mut Parts, tier: Tier) -> Vec<SiteGroup> {
                             let nm = e.name.clone();
                             let mk = move |ed: Edit, why: String| StoredFault { layer: Layer::CfbStream { stream: nm.clone() }, edit: Some(ed), why };
                             for g in record_bombs(&e.name, st, true, thorough, &mk) {
-                                all.push(SiteGroup { inner: None, faults: g, light: true });
+                                all.push(SiteGroup { inner: None, faults: g, light: true, scaling: false });
                             }
                         }
                     }
@@ -1782,5 +1787,15 @@ pub fn sites(fx: &Fixture, parts: &mut Parts, tier: Tier) -> Vec<SiteGroup> {
         }
     }
     all.extend(crate::coord::coordinated(fx, parts, tier));
+    // growth measurements: every amplified site once more, as a scaling run (quick: the
+    // any_sheets quartet only)
+    if tier == Tier::Thorough || fx.name.starts_with("any_sheets.") {
+        let scaled: Vec<SiteGroup> = all
+            .iter()
+            .filter(|g| g.light && g.faults.iter().any(|f| matches!(&f.edit, Some(Edit::Repeat { count, .. }) if *count >= 8000)))
+            .map(|g| SiteGroup { scaling: true, ..g.clone() })
+            .collect();
+        all.extend(scaled);
+    }
     all
 }
